@@ -510,7 +510,6 @@ pub fn build_step(cfg: &Config, faults: &[Fault], step: usize, root: &Path) -> B
             m
         };
         let mut manifest_json = serde_json::to_value(&honest_manifest).expect("manifest json");
-        let mut valid_a = true;
         let mut manifest_present = true;
         let mut manifest_raw: Option<Vec<u8>> = None;
         let mut comp = mc.comp_anc;
@@ -543,7 +542,6 @@ pub fn build_step(cfg: &Config, faults: &[Fault], step: usize, root: &Path) -> B
                             let flipped = if h.starts_with('0') { "1" } else { "0" };
                             h.replace_range(0..1, flipped);
                             manifest_json = reserialise(&data, &manifest_json["signature"]);
-                            valid_a = false;
                         }
                     }
                     ManifestFault::EntryAdded(p) => {
@@ -551,14 +549,12 @@ pub fn build_step(cfg: &Config, faults: &[Fault], step: usize, root: &Path) -> B
                         data.insert(PathBuf::from(p), common::sha256_hex(&bytes));
                         entries.push(Entry::file(p, bytes));
                         manifest_json = reserialise(&data, &manifest_json["signature"]);
-                        valid_a = false;
                     }
                     ManifestFault::EntryRemoved(i) => {
                         if !data.is_empty() {
                             let k = data.keys().nth(i % data.len()).unwrap().clone();
                             data.remove(&k);
                             manifest_json = reserialise(&data, &manifest_json["signature"]);
-                            valid_a = false;
                         }
                     }
                     ManifestFault::SigAltered => {
@@ -569,14 +565,12 @@ pub fn build_step(cfg: &Config, faults: &[Fault], step: usize, root: &Path) -> B
                                 s.push(if last == '0' { '1' } else { '0' });
                             }
                             manifest_json["signature"] = Value::String(s);
-                            valid_a = false;
                         }
                     }
                     ManifestFault::SigRemoved => {
                         if let Some(o) = manifest_json.as_object_mut() {
                             o.remove("signature");
                         }
-                        valid_a = false;
                     }
                     ManifestFault::ResignOtherKey => {
                         // recompute hashes of listed files from the archive as it stands, sign with B
@@ -590,7 +584,6 @@ pub fn build_step(cfg: &Config, faults: &[Fault], step: usize, root: &Path) -> B
                         let mut m = AncillaryFilesManifest::new_without_signature(data.clone());
                         m.set_signature(client::signer_b().sign(&m.compute_hash()));
                         manifest_json = serde_json::to_value(&m).expect("manifest json");
-                        valid_a = false;
                     }
                     ManifestFault::ListedFileAltered(i) => {
                         let listed_now: Vec<PathBuf> = data.keys().cloned().collect();
@@ -605,22 +598,25 @@ pub fn build_step(cfg: &Config, faults: &[Fault], step: usize, root: &Path) -> B
                     }
                     ManifestFault::ManifestMissing => {
                         manifest_present = false;
-                        valid_a = false;
                     }
                     ManifestFault::NotJson => {
                         manifest_raw = Some(b"{ this is not json".to_vec());
-                        valid_a = false;
                     }
                 },
                 _ => {}
             }
         }
+        let raw_replaced = manifest_raw.is_some();
         if manifest_present {
             let bytes = manifest_raw.unwrap_or_else(|| serde_json::to_vec(&manifest_json).expect("manifest bytes"));
             entries.push(Entry::file(AncillaryFilesManifest::ANCILLARY_MANIFEST_FILE_NAME, bytes));
         }
+        // by construction: the manifest verifies under key A iff the bytes served are exactly the
+        // (data, signature) pair A produced; Ed25519 signatures are deterministic and the mirror
+        // does not hold A's key, so no other pair it can produce verifies
+        let honest_json = serde_json::to_value(&honest_manifest).expect("manifest json");
+        let valid_a = manifest_present && !raw_replaced && manifest_json == honest_json;
         if valid_a {
-            // by construction: `data` is exactly what key A signed
             built.vouched.insert(
                 m,
                 data.iter().map(|(k, v)| (k.to_string_lossy().to_string(), v.clone())).collect(),
@@ -909,6 +905,9 @@ fn judge_step(
                 // directories are containers; a directory that holds nothing allowed shows up
                 // through its files. Empty foreign directories are recorded, not judged.
                 let has_child = after.range(format!("{p}/")..).next().is_some_and(|(q, _)| q.starts_with(&format!("{p}/")));
+                if p.strip_prefix("immutable/").is_some_and(|n| common::parse_trio_name(n).is_some()) {
+                    *out.observations.entry("obs_directory_under_an_immutable_file_name".into()).or_default() += 1;
+                }
                 if !has_child {
                     let class = if is_temp_dir_name(p) {
                         "obs_empty_temp_dir_survived"
@@ -937,20 +936,11 @@ fn judge_step(
                     continue;
                 }
                 // (b) immutable file of the requested range
-                if let Some(name) = p.strip_prefix("immutable/")
-                    && let Some(n) = common::parse_trio_name(name)
+                let trio_number = p.strip_prefix("immutable/").and_then(common::parse_trio_name);
+                if let Some(n) = trio_number
+                    && bounds.is_some_and(|(lo, hi)| n >= lo && n <= hi)
                 {
-                    if bounds.is_some_and(|(lo, hi)| n >= lo && n <= hi) {
-                        out.classes.insert("immutable-in-range".into());
-                        continue;
-                    }
-                    out.classes.insert("immutable-outside-range".into());
-                    push(
-                        "immutable-outside-range",
-                        p,
-                        format!("{pre} immutable file `{p}` is outside the requested range {:?} (beacon {})", sc.range, cfg.beacon),
-                        out,
-                    );
+                    out.classes.insert("immutable-in-range".into());
                     continue;
                 }
                 if is_temp_path(p) {
@@ -964,6 +954,16 @@ fn judge_step(
                         "unverified-ancillary-kept",
                         p,
                         format!("{pre} file `{p}` comes from an ancillary archive but no manifest signed by the configured key lists it with this hash"),
+                        out,
+                    );
+                    continue;
+                }
+                if trio_number.is_some() {
+                    out.classes.insert("immutable-outside-range".into());
+                    push(
+                        "immutable-outside-range",
+                        p,
+                        format!("{pre} immutable file `{p}` is outside the requested range {:?} (beacon {})", sc.range, cfg.beacon),
                         out,
                     );
                     continue;
@@ -1002,7 +1002,15 @@ fn judge_step(
 
     // strict form for benign steps: only unavailability faults, an honest copy reachable
     let step_faults: Vec<&Fault> = faults.iter().filter(|f| f.site().is_some_and(|(fs, _, _)| fs == s)).collect();
-    let only_unavailable = step_faults.iter().all(|f| matches!(f, Fault::Unavailable { .. }));
+    // ... and the directory it starts from was not shaped by a faulty mirror in an earlier step
+    // (e.g. a hostile directory entry named like an immutable file makes later honest unpacks
+    // fail; the statement does not promise success from such a state)
+    let earlier_steps_benign = faults
+        .iter()
+        .filter(|f| f.site().is_some_and(|(fs, _, _)| fs < s))
+        .all(|f| matches!(f, Fault::Unavailable { .. }));
+    let only_unavailable =
+        earlier_steps_benign && step_faults.iter().all(|f| matches!(f, Fault::Unavailable { .. }));
     if let Some((lo, hi)) = bounds
         && only_unavailable
     {
@@ -1256,6 +1264,19 @@ pub fn finish_report(
         if s > 0 {
             report.hit("probe_redownload_into_existing_directory");
         }
+        let calls = &out.calls[s];
+        if let Some(i) = calls.iter().position(|c| c.key == TaskKey::Anc && c.ok)
+            && calls[i + 1..].iter().any(|c| matches!(c.key, TaskKey::Imm(_)))
+        {
+            report.hit("probe_ancillary_moved_before_an_immutable_download");
+        }
+        let imm_order: Vec<u64> = calls.iter().filter_map(|c| match c.key { TaskKey::Imm(n) => Some(n), _ => None }).collect();
+        if imm_order.windows(2).any(|w| w[0] > w[1]) {
+            report.hit("probe_immutable_downloads_out_of_numeric_order");
+        }
+        if !*ok && cfg.steps[s].include_ancillary && calls.iter().any(|c| c.key == TaskKey::Anc && !c.ok) && calls.last().is_some_and(|c| matches!(c.key, TaskKey::Imm(_))) {
+            report.hit("probe_abort_between_two_ancillary_location_attempts");
+        }
     }
     // fingerprint: normalised op / fault-kind sequence
     let mut fp = Fingerprint::new();
@@ -1318,24 +1339,65 @@ pub fn finish_report(
     }
 }
 
+/// scenarios per run: 1 in the quick tier; the thorough tier packs several scenarios into one
+/// run so that millions of scenarios do not mean millions of report lines
+pub fn batch_of(tier: sim_core::Tier) -> u64 {
+    match tier {
+        sim_core::Tier::Quick => 1,
+        sim_core::Tier::Thorough => 10,
+    }
+}
+
 pub fn run(ctx: &sim_core::RunCtx) -> RunReport {
     let node = client::node();
-    let mut rng = Rng::for_run(ctx.seed, PROPERTY, ctx.run);
-    let (cfg, faults) = generate(&mut rng);
-    let out = execute(node, &cfg, &faults, false);
+    let batch = batch_of(ctx.tier);
     let mut report = RunReport::new(ctx.run);
-    finish_report(node, &cfg, &faults, &out, &mut report, true);
-    if ctx.want_sample {
-        report.sample = Some(json!({
-            "run": ctx.run, "config": cfg, "faults": faults,
-            "steps": out.step_ok.iter().enumerate().map(|(s, ok)| json!({
-                "result": if *ok {"Ok"} else {"Err"},
-                "calls": out.calls[s].iter().map(|c| format!("{}@m{}:{}", c.key.label(), c.mirror, if c.ok {"ok"} else {"err"})).collect::<Vec<_>>(),
-                "directory_after": out.listings[s].iter().filter(|(_, n)| !matches!(n, Node::Dir)).map(|(p, _)| normalise_path(p)).collect::<Vec<_>>(),
-            })).collect::<Vec<_>>(),
-            "violations": out.violations.iter().map(|v| format!("[{}] {}", v.clause, v.detail)).collect::<Vec<_>>(),
-        }));
+    let mut fp = Fingerprint::new();
+    let mut digest = Fingerprint::new();
+    let mut replay_unknown = false;
+    for k in 0..batch {
+        let mut rng = Rng::for_run(ctx.seed, PROPERTY, ctx.run * batch + k);
+        let (cfg, faults) = generate(&mut rng);
+        let out = execute(node, &cfg, &faults, false);
+        let mut sub = RunReport::new(ctx.run);
+        finish_report(node, &cfg, &faults, &out, &mut sub, true);
+        for (key, n) in &sub.counters {
+            report.count(key, *n);
+        }
+        report.hit("sim_scenarios");
+        report.nontrivial |= sub.nontrivial;
+        report.states.push(sub.fingerprint);
+        report.states.extend(sub.states.iter().copied());
+        fp.add_u64(sub.fingerprint);
+        digest.add_u64(sub.digest);
+        // keep the replay of the first scenario with an unexplained violation, else of the first
+        // violating scenario
+        let sub_unknown = sub.violations.iter().any(|v| v.finding.is_none());
+        if sub.replay.is_some() && (report.replay.is_none() || (sub_unknown && !replay_unknown)) {
+            report.replay = sub.replay.take();
+            replay_unknown = sub_unknown;
+        }
+        for v in sub.violations {
+            if !report.violations.iter().any(|x| x.clause == v.clause && x.finding == v.finding) {
+                report.violations.push(v);
+            }
+        }
+        if ctx.want_sample && k == 0 {
+            report.sample = Some(json!({
+                "run": ctx.run, "config": cfg, "faults": faults,
+                "steps": out.step_ok.iter().enumerate().map(|(s, ok)| json!({
+                    "result": if *ok {"Ok"} else {"Err"},
+                    "calls": out.calls[s].iter().map(|c| format!("{}@m{}:{}", c.key.label(), c.mirror, if c.ok {"ok"} else {"err"})).collect::<Vec<_>>(),
+                    "directory_after": out.listings[s].iter().filter(|(_, n)| !matches!(n, Node::Dir)).map(|(p, _)| normalise_path(p)).collect::<Vec<_>>(),
+                })).collect::<Vec<_>>(),
+                "violations": out.violations.iter().map(|v| format!("[{}] {}", v.clause, v.detail)).collect::<Vec<_>>(),
+            }));
+        }
     }
+    report.states.sort_unstable();
+    report.states.dedup();
+    report.fingerprint = fp.value();
+    report.digest = digest.value();
     report
 }
 
